@@ -7,7 +7,7 @@ SCHEMA = '/root/.vp/EVIDENCE.schema.json'
 
 
 def write(prop, doc):
-    path = os.path.join(ROOT, 'evidence', f'{prop}.json')
+    path = os.path.join(os.environ.get('VERIF_EVIDENCE_DIR') or os.path.join(ROOT, 'evidence'), f'{prop}.json')
     os.makedirs(os.path.dirname(path), exist_ok=True)
     tmp = path + '.tmp'
     with open(tmp, 'w') as f:
